@@ -15,6 +15,7 @@ func init() {
 		edges := fs.String("edges", "", "graph export")
 		walks := fs.String("walks", "", "walk export")
 		out := fs.String("out", "-", "report")
+		conc := fs.Int("conc", 0, "concurrent-sender runs")
 		fs.Parse(args)
 		var cfg gatedrep.Config
 		if err := readJSON(*cfgPath, &cfg); err != nil {
@@ -25,6 +26,16 @@ func init() {
 		if err != nil {
 			fmt.Fprintln(os.Stderr, "replay:", err)
 			return 2
+		}
+		for i := 0; i < *conc; i++ {
+			for _, m := range gatedrep.RunConc(int64(i)*7+int64(cfg.E), 2+i%7, 60, cfg.BrokerSet) {
+				rep.MismatchN++
+				for _, p := range m.Props {
+					rep.ByProp[p]++
+				}
+				rep.Mismatches = append(rep.Mismatches, m)
+			}
+			rep.ConcRuns++
 		}
 		if err := writeJSON(*out, rep); err != nil {
 			return 2
